@@ -25,8 +25,10 @@
 NukedOPN2::NukedOPN2(OPNFamily f, bool ym3438)
     : OPNChipBaseT(f)
 {
-    OPN2_SetChipType(ym3438 ? ym3438_mode_readmode : ym3438_mode_ym2612);
-    chip = new ym3438_t;
+    ym3438_t *chip_r = new ym3438_t;
+    chip = chip_r;
+    std::memset(chip_r, 0, sizeof(ym3438_t));
+    OPN2_SetChipType(chip_r, ym3438 ? ym3438_mode_readmode : ym3438_mode_ym2612);
     setRate(m_rate, m_clock);
 }
 
